@@ -119,7 +119,11 @@ def run(ctx):
             elif r < 0.7:
                 calls.append("type_pointer/%s/%d/%d" % ("-" if (implicit_only or rnd.random() < 0.7) else "60", rnd.choice([0, 7]), rnd.choice(ids)))
             elif r < 0.8:
-                calls.append(rnd.choice(["constant_bit32/1/7", "constant_bit32/1/7", "constant_true/1", "constant_null/2", "id"]))
+                # constants, and instructions *without a result id* that also live in types_global_values (the dedup search
+                # has to step over them): forward pointers, line info given with no block selected, raw insertions
+                calls.append(rnd.choice(["constant_bit32/1/7", "constant_bit32/1/7", "constant_true/1", "constant_null/2", "id",
+                                         "type_forward_pointer/4/7", "no_line", "line/1/2/3",
+                                         "insert_types_global_values/" + rnd.choice(["E", "B"]) + "/8;-;-;-"]))
             elif r < 0.9:
                 # fails (no block selected) after reserving an id
                 calls.append(rnd.choice(["i_add/1/-/2/3", "load/1/-/2/-/-", "ext_inst/1/-/2/3/-"]))
@@ -174,7 +178,8 @@ def run(ctx):
                 inv[v] = k
             tgv = [t for t in dump.split(" ") if t.startswith("s10:")][0][4:]
             decls = [] if tgv == "-" else tgv.split("|")
-            keys = [(d.split(";")[0], d.split(";")[3]) for d in decls if not d.startswith("43;") and not d.startswith("41;") and not d.startswith("46;") and not d.startswith("59;")]
+            # declarations = entries with a result id (forward pointers, line info and raw insertions have none and may repeat)
+            keys = [(d.split(";")[0], d.split(";")[3]) for d in decls if d.split(";")[2] != "-" and not d.startswith("43;") and not d.startswith("41;") and not d.startswith("46;") and not d.startswith("59;")]
             if len(keys) != len(set(keys)):
                 return "two identical type declarations in a module whose types were all requested implicitly"
         return None
